@@ -64,6 +64,8 @@ type Client struct {
 	reqs     int // requests issued so far (since last plan reset)
 	muts     int // mutating requests applied so far (since last plan reset)
 	failAt   map[int]faultKind
+	failMut  map[int]faultKind // keyed by mutation index (0 = the first mutating request)
+	mutIdx   int
 	failFrom int // persistent from this request index (0-based), -1 = none
 	failKind faultKind
 	crashAt  int // after this many mutations every request fails; -1 = none
@@ -92,7 +94,7 @@ func (s *Store) Client(id string) *Client {
 	defer s.mu.Unlock()
 	c, ok := s.clients[id]
 	if !ok {
-		c = &Client{st: s, id: id, failFrom: -1, crashAt: -1, planPerm: -1, failAt: map[int]faultKind{}}
+		c = &Client{st: s, id: id, failFrom: -1, crashAt: -1, planPerm: -1, failAt: map[int]faultKind{}, failMut: map[int]faultKind{}}
 		s.clients[id] = c
 	}
 	return c
@@ -103,6 +105,8 @@ func (c *Client) ResetPlans() {
 	defer c.pmu.Unlock()
 	c.reqs, c.muts = 0, 0
 	c.failAt = map[int]faultKind{}
+	c.failMut = map[int]faultKind{}
+	c.mutIdx = 0
 	c.failFrom, c.crashAt = -1, -1
 	c.failKind = faultNone
 	c.crashed = false
@@ -152,7 +156,15 @@ func (c *Client) before(ctx context.Context, op, key string, mutating bool) erro
 		return awserr.New("RequestError", "injected crash: connection lost", nil)
 	}
 	k := faultNone
-	if fk, ok := c.failAt[idx]; ok {
+	if mutating {
+		if fk, ok := c.failMut[c.mutIdx]; ok {
+			k = fk
+		}
+		c.mutIdx++
+	}
+	if k != faultNone {
+		// decided by the mutation index
+	} else if fk, ok := c.failAt[idx]; ok {
 		k = fk
 	} else if c.failFrom >= 0 && idx >= c.failFrom {
 		k = c.failKind
